@@ -56,6 +56,9 @@ func init() {
 	register(&core.Rule{ID: "G2", Min: 8,
 		Doc: "Type guard of the emitted decoder programs: in every emitted template, the instruction that follows `is_null` (the start of a value; lspace ignored) is a type guard or a delegation - check_char_0 + dismatch_err, the checkIfSkip helper, check_char '[' / '\"' (byte slices), a strict match_char, the error-raising dismatch_err/unsupported, the dynamic dispatchers any/dyn/recurse, a primitive/unmarshaler opcode passed in by the caller, checkMarshaler, or a call that compiles the value (compileOps/compileOne/...) - never an instruction that consumes or skips the value unconditionally: otherwise a value of the wrong JSON type is accepted silently where encoding/json reports an UnmarshalTypeError.",
 		Run: func(c *core.Ctx) { runIRT(c, "G2") }})
+	register(&core.Rule{ID: "G3", Min: 1,
+		Doc: "Separator discipline of the emitted encoder programs (struct bodies): in the per-field fragment of encoder.compileStructBody every `byte ','` is either guarded by the run-time first-member test (cond_testc immediately before it), or it is emitted under a compile-time flag B (`if B`), and then every Go-level path that sets `B = true` emits code for its field that cannot be skipped at run time (no branch of the field's code jumps past its key). Otherwise a struct whose leading fields are skipped (nil embedded pointer, omitempty) is encoded as `{,\"name\":...}`.",
+		Run: func(c *core.Ctx) { runIRT(c, "G3") }})
 	register(&core.Rule{ID: "I3", Min: 8,
 		Doc: "Depth tag: every compile function that emits a save also emits tag(sp...) before it on the same path (the compile-time nesting bound that turns unbounded type nesting into an error).",
 		Run: func(c *core.Ctx) { runIRT(c, "I3") }})
@@ -1046,6 +1049,15 @@ func analyseIR(p *core.Program, d irDialect, unroll int) *irAnalysis {
 		}
 		seen := map[string]bool{}
 		feasible := 0
+		// G3 bookkeeping (encoder struct bodies)
+		type g3path struct {
+			unguarded token.Pos       // an unguarded ',' emitted on this path
+			under     map[string]bool // bool identifiers tested true on this path
+			sets      map[string]bool // bool identifiers assigned true on this path
+			skippable token.Pos       // a branch of this path's code that can skip the key text
+			emitsKey  bool
+		}
+		var g3 []g3path
 		for _, pt := range paths {
 			st := &irState{p: p, d: d, info: info, an: an, branch: br, labels: map[types.Object]labelVal{}, truth: map[string]bool{}, fname: name}
 			if info.fragBody != nil {
@@ -1111,8 +1123,64 @@ func analyseIR(p *core.Program, d irDialect, unroll int) *irAnalysis {
 					an.viols[name] = append(an.viols[name], v)
 				}
 			}
+			if d.name == "encoder" && strings.HasPrefix(name, "compileStructBody") {
+				gp := g3path{under: map[string]bool{}, sets: map[string]bool{}}
+				keyAt := -1
+				for i, in := range st.instrs {
+					if in.op == "OP_text" && keyAt < 0 {
+						keyAt = i
+						gp.emitsKey = true
+					}
+					if in.op == "OP_byte" && in.arg == "," && !(i > 0 && st.instrs[i-1].op == "OP_cond_testc") {
+						gp.unguarded = in.pos
+					}
+				}
+				for i, in := range st.instrs {
+					if keyAt >= 0 && i < keyAt && in.branch == 1 && in.op != "OP_cond_testc" && (in.target > keyAt || in.target < 0) {
+						gp.skippable = in.pos
+					}
+				}
+				for _, e := range pt {
+					if e.Cond != nil {
+						if id, ok := ast.Unparen(e.Cond).(*ast.Ident); ok && e.Taken {
+							if b, ok := p.TypeOf(id).(*types.Basic); ok && b.Kind() == types.Bool {
+								gp.under[id.Name] = true
+							}
+						}
+					}
+					if as, ok := e.Stmt.(*ast.AssignStmt); ok && len(as.Lhs) == 1 && len(as.Rhs) == 1 && exprStr(as.Rhs[0]) == "true" {
+						if id, ok := as.Lhs[0].(*ast.Ident); ok {
+							gp.sets[id.Name] = true
+						}
+					}
+				}
+				g3 = append(g3, gp)
+			}
 		}
 		an.paths[name] = feasible
+		if len(g3) > 0 {
+			for _, gp := range g3 {
+				if !gp.unguarded.IsValid() {
+					continue
+				}
+				if len(gp.under) == 0 {
+					an.viols[name] = append(an.viols[name], irViolation{"G3", "comma", gp.unguarded, "a ',' is emitted without the first-member test (cond_testc) and without a compile-time flag that proves an earlier field is always present: if the preceding fields are skipped at run time the object starts with a comma"})
+					break
+				}
+				done := false
+				for b := range gp.under {
+					for _, other := range g3 {
+						if other.sets[b] && other.skippable.IsValid() && !done {
+							an.viols[name] = append(an.viols[name], irViolation{"G3", "comma", gp.unguarded, "a ',' is emitted without the first-member test under the compile-time flag `" + b + "`, but `" + b + " = true` is also set on a path whose field code can be skipped at run time (branch at " + p.Pos(other.skippable) + " jumps past the key, e.g. a nil embedded pointer): with the leading fields skipped the object is encoded as `{,\"name\":...}`"})
+							done = true
+						}
+					}
+				}
+				if done {
+					break
+				}
+			}
+		}
 	}
 	if p.Cache == nil {
 		p.Cache = map[string]interface{}{}
@@ -1172,6 +1240,9 @@ func runIRT(c *core.Ctx, rule string) {
 			if (rule == "G2" || rule == "G1") && d.name != "jitdec" {
 				continue
 			}
+			if rule == "G3" && (d.name != "encoder" || !strings.HasPrefix(name, "compileStructBody")) {
+				continue
+			}
 			var mine []irViolation
 			for _, v := range an.viols[name] {
 				if v.rule != rule {
@@ -1205,6 +1276,11 @@ func runIRT(c *core.Ctx, rule string) {
 					c.OK(fn+"/tag", info.fd.Pos(), "save preceded by tag on every path")
 				case "G1":
 					c.OK(fn+"/separators", info.fd.Pos(), "%d feasible paths: no ',' is followed by an accepted closer", an.paths[name])
+				case "G3":
+					if d.name != "encoder" || !strings.HasPrefix(name, "compileStructBody") {
+						continue
+					}
+					c.OK(fn+"/comma", info.fd.Pos(), "%d feasible paths: every ',' is guarded by cond_testc or by a flag that is only set after an unskippable field", an.paths[name])
 				case "G2":
 					c.OK(fn+"/type-guard", info.fd.Pos(), "%d feasible paths: every is_null is followed by a type guard or a delegation", an.paths[name])
 				}
